@@ -114,3 +114,9 @@ add("C04",
     "~30 modules x ~120 commands (quick), ~320 modules in thorough; any out-of-bounds access, executed UB (overflow, bad shift, misaligned typed access, null dereference) or tripped runtime check on the explored scripts is reported with the command prefix as replay.",
     "Trusts: ASan/UBSan as the memory-safety and UB oracle (UB that does not execute is invisible); clang 14 on x86-64 only.",
     "DESIGN.md §4 C04")
+
+add("C07",
+    "property-based testing with the C++ compiler as oracle: accepted modules from every generator (layout, write, text, enum, physical-boundary, typed, scope-tree, import pairs, accepted mutants), the repository corpus and an identifier-shape catalogue are compiled in-process; the emitted header plus an IR-derived full-instantiation driver (every documented member named, every front-end constant static_asserted or checked at run time) is compiled under g++ -std=c++11/14/17 (clang++ in thorough), with and without enum traits, and linked from two translation units and run",
+    "~90 accepted modules x 4 configurations (quick) to ~1000 x 7 (thorough); finds emitted code that is ill-formed C++ under some standard, members that fail to instantiate, missing inline/ODR problems at link time, constants that differ from the front end's, and user names that collide with generated identifiers (recorded as known findings, excluded by construction afterwards).",
+    "Trusts: g++ 12 / clang++ 14 on x86-64 Linux as the definition of valid C++; cpp-reference.md as the list of members to name; the IR's own annotations as 'the values the front end computed' (their soundness is C05's subject).",
+    "DESIGN.md §4 C07")
